@@ -35,7 +35,8 @@ func genC18(t *rapid.T) RoutingCase {
 
 // d13 is the signature of known finding D13: both routers ran a route function of the same
 // service, the two routes differ, the reference model admits either of them for this request
-// and neither strictly refines the other (the statement does not rank them).
+// their templates have different literal/variable skeletons and neither strictly refines
+// the other (the statement does not rank them).
 func d13(c RoutingCase, req model.ReqSpec, a, b harness.Outcome) bool {
 	if a.Route() == "" || b.Route() == "" || a.Route() == b.Route() {
 		return false
@@ -52,6 +53,9 @@ func d13(c RoutingCase, req model.ReqSpec, a, b harness.Outcome) bool {
 		}
 	}
 	fa, fb := sa.Full(ra), sb.Full(rb)
+	if fa.Shape() == fb.Shape() {
+		return false // same literal/variable skeleton: both routers rank these alike (by path string, then registration order)
+	}
 	return !model.RouteRefines(fa, fb) && !model.RouteRefines(fb, fa)
 }
 
